@@ -92,6 +92,32 @@ func nearMissWorkload(c *Ctx, f func(entry, input string)) {
 		}
 		gen.SystematicEdits(txt, emit)
 		gen.SystematicMoves(txt, emit)
+		if len(txt) <= 1200 {
+			gen.SystematicDuplicates(txt, emit)
+		}
+		for _, pre := range gen.HostilePrefixes {
+			emit(pre + txt)
+		}
+	}
+	// every corpus file: hostile prefixes, duplicated token runs; short ones with every "future syntax" phrase inserted
+	for i, cc := range c.Corpus() {
+		if cc.Bad || !c.Mine(i) {
+			continue
+		}
+		e := cc.Entries()[0]
+		emit := func(m string) {
+			f(e, m)
+			c.Count("near_miss_inputs", 1)
+		}
+		for _, pre := range gen.HostilePrefixes {
+			emit(pre + cc.Text)
+		}
+		if len(cc.Text) <= 600 {
+			gen.SystematicDuplicates(cc.Text, emit)
+		}
+		if len(cc.Text) <= 160 {
+			gen.PhraseInsertions(cc.Text, emit)
+		}
 	}
 	// token moves of every corpus file and of random sentences (pairs of optional clauses that the each-choice set
 	// does not combine)
